@@ -1639,6 +1639,7 @@ def _generate_structure_definition(type_ir, ir, config: Config):
     forwarded_parameters = []
     parameter_initializers = []
     parameter_copy_initializers = []
+    parameter_copy_assignments = []
     units = {1: "Bits", 8: "Bytes"}[type_ir.addressable_unit]
 
     for subtype in type_ir.subtype:
@@ -1666,6 +1667,9 @@ def _generate_structure_definition(type_ir, ir, config: Config):
         parameter_copy_initializers.append(
             ", {0}_(emboss_reserved_local_other.{0}_)".format(parameter_name)
         )
+        parameter_copy_assignments.append(
+            "    {0}_ = emboss_reserved_local_other.{0}_;".format(parameter_name)
+        )
 
         field_method_declarations.append(
             code_template.format_template(
@@ -1689,6 +1693,9 @@ def _generate_structure_definition(type_ir, ir, config: Config):
         flag_name = "parameters_initialized_"
         parameter_copy_initializers.append(
             ", {0}(emboss_reserved_local_other.{0})".format(flag_name)
+        )
+        parameter_copy_assignments.append(
+            "    {0} = emboss_reserved_local_other.{0};".format(flag_name)
         )
         parameters_initialized_flag = "bool {} = false;".format(flag_name)
         initialize_parameters_initialized_true = ", {}(true)".format(flag_name)
@@ -1782,6 +1789,7 @@ def _generate_structure_definition(type_ir, ir, config: Config):
         field_method_declarations="".join(field_method_declarations),
         field_ok_checks=field_ok_checks_body,
         ok_subexpressions=ok_subexpressions.definition_code(),
+        parameter_copy_assignments="\n".join(parameter_copy_assignments),
         parameter_ok_checks="\n".join(parameter_checks),
         requires_check=requires_check,
         equals_method_body="\n".join(equals_method_clauses),
